@@ -2,6 +2,7 @@ package main
 
 import (
 	"fmt"
+	"go/constant"
 	"go/types"
 	"os"
 	"sort"
@@ -21,6 +22,13 @@ type World struct {
 	Prog    *ssa.Program
 	SSAPkgs map[string]*ssa.Package // by import path
 	Funcs   map[string]*ssa.Function // by canonical name, see funcKey
+	GlobalInit map[string]GlobalInit // "<pkg>.<name>" -> how the package variable is initialised (only if never assigned elsewhere)
+}
+
+// GlobalInit: a package-level variable that is assigned exactly once, in the package initialiser.
+type GlobalInit struct {
+	Kind string // "const" (integer/bool constant) or "newerr" (errors.New / fmt.Errorf: a distinct non-nil value)
+	Term Term
 }
 
 func repoDir() string {
@@ -68,7 +76,68 @@ func loadWorld() (*World, error) {
 		w.SSAPkgs[path] = spkgs[i]
 		w.collect(spkgs[i])
 	}
+	w.scanGlobals()
 	return w, nil
+}
+
+// scanGlobals: package variables initialised in init with a constant or errors.New(...) and never stored to by any other function of the module
+// are treated as constants (frame:global-const audit, see DESIGN 2.4).
+func (w *World) scanGlobals() {
+	w.GlobalInit = map[string]GlobalInit{}
+	stores := map[*ssa.Global]int{}
+	initVal := map[*ssa.Global]GlobalInit{}
+	var visit func(f *ssa.Function, isInit bool)
+	visit = func(f *ssa.Function, isInit bool) {
+		for _, b := range f.Blocks {
+			for _, in := range b.Instrs {
+				st, ok := in.(*ssa.Store)
+				if !ok {
+					continue
+				}
+				g, ok := st.Addr.(*ssa.Global)
+				if !ok {
+					continue
+				}
+				stores[g]++
+				if !isInit {
+					stores[g] += 100
+					continue
+				}
+				switch v := st.Val.(type) {
+				case *ssa.Const:
+					if v.Value != nil && (v.Value.Kind() == constant.Int) {
+						initVal[g] = GlobalInit{"const", tIntStr(v.Value.ExactString())}
+					} else if v.Value != nil && v.Value.Kind() == constant.Bool {
+						initVal[g] = GlobalInit{"const", tBool(constant.BoolVal(v.Value))}
+					}
+				case *ssa.Call:
+					if fn, ok := v.Call.Value.(*ssa.Function); ok && (fn.String() == "errors.New" || fn.String() == "fmt.Errorf") {
+						initVal[g] = GlobalInit{Kind: "newerr"}
+					}
+				}
+			}
+		}
+		for _, a := range f.AnonFuncs {
+			visit(a, isInit)
+		}
+	}
+	for _, p := range w.SSAPkgs {
+		for _, m := range p.Members {
+			if f, ok := m.(*ssa.Function); ok {
+				visit(f, f.Name() == "init")
+			}
+		}
+	}
+	for _, f := range w.Funcs {
+		if f.Parent() == nil && f.Signature.Recv() != nil {
+			visit(f, false)
+		}
+	}
+	for g, gi := range initVal {
+		if stores[g] == 1 {
+			w.GlobalInit[shortPkg(g.Pkg.Pkg.Path())+"."+g.Name()] = gi
+		}
+	}
 }
 
 func shortPkg(path string) string {
